@@ -1,8 +1,111 @@
 import Got.Drv.Common
-/- driver for the sort model family (properties C15): to be written -/
+import Got.Model.Sort
+import Got.Model.SortUnique
+/-
+drv_sort: script lines
+  slice <mode> <keys> | <nvals>
+      <keys>  comma separated ints, `-` = empty;  values are 0,1,…,nvals-1 (identified by original index)
+      <mode>  int | str        less(i,j) = keys[i] < keys[j]      (str: the harness uses []string keys, same order)
+              adv=<seed>       less(i,j) = mix(seed, i, j)         (inconsistent, index based)
+              advk=<seed>      less(i,j) = mix(seed, keys[i], keys[j])   (inconsistent, content based)
+    output:  k <keys> v <vals> n <number of Less calls> h <hash of the Less log> [log i:j:r …]   (log for min ≤ 16)
+             or `panic` if some index passed to Less/Swap is ≥ min(len keys, nvals)
+  unique <int|str> <elems>
+    output:  r <returned slice> b <backing array after the call>   or `panic`
+-/
 namespace Got.Drv.Sort
+open Got.Model.Sort Got.Model.SortUnique Got.Drv
+
+def parseInts? (s : String) : Option (Array Int) :=
+  if s = "-" then some #[] else
+  (s.splitOn ",").foldl (fun acc w => match acc, w.toInt? with
+    | some a, some x => some (a.push x)
+    | _, _ => none) (some #[])
+
+def showInts (a : Array Int) : String :=
+  if a.isEmpty then "-" else ",".intercalate (a.toList.map toString)
+
+def showNats (a : Array Nat) : String :=
+  if a.isEmpty then "-" else ",".intercalate (a.toList.map toString)
+
+/-- the adversarial comparison bit shared with the harness -/
+def mix (seed x y : UInt64) : Bool :=
+  let z := seed ^^^ (x * 0x9E3779B97F4A7C15) ^^^ (y * 0xC2B2AE3D27D4EB4F)
+  let z := z ^^^ (z >>> 29)
+  let z := z * 0xBF58476D1CE4E5B9
+  let z := z ^^^ (z >>> 32)
+  z &&& 1 == 1
+
+def u64OfInt (k : Int) : UInt64 := UInt64.ofNat (k % 18446744073709551616).toNat
+
+def advLess (seed : UInt64) : LessFn Int Nat := fun _ i j => mix seed (UInt64.ofNat i) (UInt64.ofNat j)
+
+def advkLess (seed : UInt64) : LessFn Int Nat := fun s i j =>
+  match s.keys[i]?, s.keys[j]? with
+  | some x, some y => mix seed (u64OfInt x) (u64OfInt y)
+  | _, _ => false
+
+def fnvStep (h x : UInt64) : UInt64 := (h ^^^ x) * 0x100000001b3
+
+/-- (count, hash) of the Less calls of a log given oldest first -/
+def hashLog (evs : List Ev) : Nat × UInt64 :=
+  evs.foldl (fun (acc : Nat × UInt64) e => match e with
+    | .less i j r => (acc.1 + 1, fnvStep (fnvStep (fnvStep acc.2 (UInt64.ofNat i)) (UInt64.ofNat j)) (if r then 1 else 0))
+    | .swap _ _ => acc) (0, 0xcbf29ce484222325)
+
+def evOutOfRange (n : Nat) : Ev → Bool
+  | .less i j _ => i ≥ n || j ≥ n
+  | .swap i j => i ≥ n || j ≥ n
+
+def hex64 (x : UInt64) : String :=
+  String.ofList ((List.range 16).map fun k => hexChar ((x.toNat >>> (4 * (15 - k))) % 16))
+
+def renderSlice (n : Nat) (s : St Int Nat) : String :=
+  if s.log.any (evOutOfRange n) then "panic" else
+  let evs := s.log.reverse
+  let (cnt, h) := hashLog evs
+  let base := ["k", showInts s.keys, "v", showNats s.vals, "n", toString cnt, "h", hex64 h]
+  let logPart :=
+    if n ≤ 16 then
+      "log" :: evs.filterMap (fun e => match e with
+        | .less i j r => some s!"{i}:{j}:{if r then 1 else 0}"
+        | .swap _ _ => none)
+    else []
+  joinSp (base ++ logPart)
+
+def runSlice (mode : String) (keys : Array Int) (nv : Nat) : String :=
+  let vals := Array.range nv
+  let n := min keys.size nv
+  let less? : Option (LessFn Int Nat) :=
+    match mode.splitOn "=" with
+    | ["int"] => some (stdLess (fun (x y : Int) => decide (x < y)))
+    | ["str"] => some (stdLess (fun (x y : Int) => decide (x < y)))
+    | ["adv", sd] => sd.toNat?.map fun z => advLess (UInt64.ofNat z)
+    | ["advk", sd] => sd.toNat?.map fun z => advkLess (UInt64.ofNat z)
+    | _ => none
+  match less? with
+  | some less => renderSlice n (sliceBy less keys vals)
+  | none => "bad-op"
+
+def runUnique (elems : Array Int) : String :=
+  match unique elems with
+  | some (r, b) => joinSp ["r", showInts r, "b", showInts b]
+  | none => "panic"
+
+def step (_ : Unit) (line : String) : Unit × String :=
+  match words line with
+  | ["slice", mode, ks, "|", nv] =>
+    match parseInts? ks, nv.toNat? with
+    | some keys, some nv => ((), runSlice mode keys nv)
+    | _, _ => ((), "bad-op")
+  | ["unique", _, es] =>
+    match parseInts? es with
+    | some elems => ((), runUnique elems)
+    | none => ((), "bad-op")
+  | [] => ((), "")
+  | _ => ((), "bad-op")
 
 def main (_args : List String) : IO Unit := do
-  IO.eprintln "drv_sort: not implemented"
+  lineLoop (← IO.getStdin) (← IO.getStdout) step ()
 
 end Got.Drv.Sort
